@@ -13,9 +13,6 @@ def run(ctx: Ctx):
 
     for _ in pipeline.run_pipeline(ctx, want):
         pass
-    from . import pipeline_trace
-
-    pipeline_trace.run_traces(ctx, want_clause=lambda cl: cl.split(":")[0] in pipeline_trace.C03_CLAUSES)
     ctx.rule = (
         "TLC runs the add_frame_result step machine (manager filter -> two-stage matching -> uuid filter -> critical filter -> pass/fail -> AP) on "
         "every configuration x lattice scene of the families (x/y boxes, distance rings, confidence/point/uuid/attribute thresholds, unknown as "
